@@ -64,7 +64,7 @@ CHECKS = {
             "complete enumeration: every unit game x all n! orderings per n, all games of two small lattices; real code executed on indeterminates as linearity guard",
             "For each n=2..7(8) the exact coefficient of every v(S) in every player's value (real code on indeterminates) equals the count over all n! orderings; every unit "
             "game through the real float path via both entry points; all 2187 three-player games over {-1,0,1}, all 2048 four-player 0/1 games, 729 mixed games; efficiency, "
-            "null players, relabellings, additivity on all pairs of basis games.",
+            "null players, relabellings, additivity on all pairs of basis games; 138 large-magnitude games M*u + small perturbation.",
             "n=9,10 efficiency/symmetry only; float rounding bounded by 1e-12*scale, not enumerated.",
             "DESIGN.md §6 C06"),
     "C09": ("E1 env explorer",
@@ -78,27 +78,31 @@ CHECKS = {
     "C10": ("configuration sweep",
             "complete enumeration of the generator registry x player counts x a seed window x two identically seeded calls; exact-rational class predicates",
             "Every registry key except 'convex' x n=3..7 (thorough 8) x every seed of a window moved by VERIF_SEED: runs, right size/dtype, v(empty)=0, superadditive within the "
-            "documented 1e-9 tolerance decided in exact rationals, monotone for the SAM families, identical for identical seeds except the documented exceptions.",
+            "documented 1e-9 tolerance decided in exact rationals, monotone for the SAM families, identical for identical seeds except the documented exceptions "
+            "(the first result is scribbled over before the second call); call histories per generator in freshly forked processes: every ordered pair of player counts.",
             "'All seeds' is met by a complete window; 'convex' needs the absent pyfmtools.",
             "DESIGN.md §6 C10"),
     "C11": ("E2 deterministic pool + enumeration",
             "exhaustive enumeration of schedules (worker counts = chunkings x chunk->worker assignments) on a deterministic process pool, independent subset enumeration as oracle",
             "get_exploitabilities_of_action_sequences for every starting knowledge (n=3 all; n=4 selected) x size limit x every worker count p x chunk->worker assignments on "
             "DetPool (real forked workers, chunks pickled as units), conformance runs on the real Pool; enumerated sets == all subsets once, gaps == gap of a fresh game with "
-            "that knowledge, schedule independent; MetaGame values for all meta-coalitions; get_best_exploitability vs exhaustive per-size optimum.",
+            "that knowledge, schedule independent (superadditive AND approximate-SAM computers); MetaGame values for all meta-coalitions; get_best_exploitability vs "
+            "exhaustive per-size optimum, incl. games whose optimum is exactly 0 before everything is revealed.",
             "forkserver start method, worker crashes and timing are not modelled.",
             "DESIGN.md §6 C11"),
     "C12": ("E2 deterministic pool",
             "exhaustive enumeration of schedules (every worker count = every chunking of the repetition list, chunk->worker assignments) on a deterministic process pool",
             "evaluate() configured like the solve command for solvers x generators x repetition counts x p (quick 1,2,3,4,16; thorough 1..16) x assignments: every column "
             "replayed against its repetition's hidden game (reported through after_reset), matrices identical for all schedules, continuous generators give pairwise distinct "
-            "hidden games; real-Pool conformance runs. The random solver's per-chunk restart is a listed known finding recognised only by an exact behavioural model.",
+            "hidden games, incl. generators that draw games done right after reset; the pool model implements the whole Pool API (for unordered entry points the schedule "
+            "owns the completion order); real-Pool conformance runs. The random solver's per-chunk restart is a listed known finding recognised only by an exact behavioural model.",
             "forkserver not modelled; the known-finding matcher accepts only action matrices equal to the restart model's prediction.",
             "DESIGN.md §6 C12, §7 F5b"),
     "C13": ("E1 env walk + E2 deterministic pool",
             "exhaustive visit of every environment knowledge state with every registered solver; expected-greedy under every schedule of a deterministic pool",
             "Every state of the knowledge lattice (n=3 all 8, n=4 all 1024 / 64) on one long-lived env: each solver's action is valid, obeys its rule against an independent "
-            "reward table, ties to the lowest index where exactly comparable, every attribute of the env unchanged; get_greedy_rewards on scripted game sets x step limits x "
+            "reward table, ties to the lowest index where exactly comparable, every attribute of the env unchanged, the same solver objects over several episodes with "
+            "different hidden games; get_greedy_rewards (plain and randomised, all four gap functions) on scripted game sets x step limits x "
             "worker counts x assignments: greedy rule per step, no repeats, monotone curve, >= exhaustive optimum and == for 0 and 1 reveals, schedule independent.",
             "Tie-breaking inside float tolerance (exploitability / l2) is unconstrained.",
             "DESIGN.md §6 C13"),
@@ -111,20 +115,22 @@ CHECKS = {
     "C15": ("input enumeration",
             "complete enumeration of integer/dyadic game lattices, additive and nearly additive families and generator seed windows against exact-rational normalisation",
             "All A3-SA / A4-SA games x {plain, shift, dyadic}, additive integer and float games, nearly additive games (additive + 2^-k * superadditive), every registered "
-            "generator in a seed window (graph games in both representations): values compared with exact rational normalisation under a three-zone specification; "
+            "generator in a seed window (graph games in both representations), additive float games with cancelling weights: values compared with exact rational "
+            "normalisation under a three-zone specification; "
             "de-normalisation restores the input.",
             "Between 1e-12 and 2^-21 relative surplus either outcome is accepted.",
             "DESIGN.md §6 C15"),
     "C16": ("E1 + E4 choice controller",
             "explicit-state BFS where every (size, tie-break candidate) pair is a transition: numpy.random.choice is owned by the harness",
-            "ICG_Gym_Linear explored with all tie-breaks enumerated: n=3,4 all states until done, n=5 depth 3(4), n=6 depth 2: mask per size, candidates offered == unknown "
+            "ICG_Gym_Linear explored with all tie-breaks enumerated over several episodes on one long-lived env (differing hidden games, incl. non-superadditive ones): "
+            "n=3,4 all states until done, n=5 depth 3(4), n=6 depth 2: mask per size, candidates offered == unknown "
             "coalitions of that size, exactly one new coalition of that size revealed and reported, reward/done/observation aggregation against the wrapped env.",
             "If a step stops consulting numpy.random.choice the run is marked non-exhaustive (never a violation).",
             "DESIGN.md §6 C16"),
     "C17": ("E1 object explorer",
             "explicit-state BFS over public value operations of the real game object with a dict reference model",
             "n=1,2 to closure, n=3 depth 3 (thorough 4), n=5 depth 2, plus roots produced by a real bound computer: after every operation every public getter is compared "
-            "with the model; copy / negation independence probed in every state.",
+            "with the model (selections also passed as one-shot iterables); copy / negation independence probed in every state.",
             "Bounds of unknown coalitions left unspecified by the statement are not compared.",
             "DESIGN.md §6 C17"),
     "C18": ("input enumeration",
@@ -136,13 +142,15 @@ CHECKS = {
     "C19": ("E1 file explorer",
             "explicit-state BFS over save sequences (state = bytes of data.json) against a first-write-wins dict model",
             "All sequences of save_json(name, result) over 3 names x 4 result shapes to depth 3 (thorough 4) with metadata of non-JSON types; read-back through both loaders; "
-            "the same through save() with all savers; solve / greedy / best_states commands with the producing function wrapped.",
+            "the same through save() with all savers; solve / greedy / best_states commands with the producing function wrapped (expectations frozen before the save, "
+            "two commands through the whole save() pipeline).",
             "Other savers' exceptions on repeated / path-like names are outside the statement.",
             "DESIGN.md §6 C19"),
     "C20": ("E3 CrashFS",
             "exhaustive fault enumeration on the real save path: kill before every OS-level operation, every torn-write offset, OSError at every operation, interrupt at traced lines",
             "File histories with 0/1/3 earlier runs x result sizes 200 B / 3 KiB / 40 KiB x every kill point (cross-checked against a forked child that really dies), every "
-            "torn-write byte offset (<= 2 KiB payloads; boundary + stride above), ENOSPC/EIO at every operation, KeyboardInterrupt at traced lines; afterwards data.json is the "
+            "torn-write byte offset (<= 2 KiB payloads; boundary + stride above), ENOSPC/EIO at every operation, fault sequences (ENOSPC then death at any later operation), "
+            "KeyboardInterrupt at traced lines; afterwards data.json is the "
             "old or the complete new file, parses, keeps earlier runs, and a recovery save works.",
             "Process death / interruption, not power loss; interrupt injection is strided for large results (reported as a cap).",
             "DESIGN.md §6 C20"),
